@@ -193,3 +193,15 @@ def as_flatmap(path: Path, t: Term):
     if F is None:
         return None
     return lp.term, elem, F
+
+
+def resolve_lists(path: Path, t, depth: int = 0):
+    """``t`` with every local accumulator list that is exactly one comprehension on this path replaced by that comprehension."""
+    if not isinstance(t, tuple) or not t or depth > 6:
+        return t
+    if t[0] == "var" and len(t) == 4 and t[3][0] == "list":
+        c = as_single_comp(path, t)
+        if c is not t and c[0] == "comp":
+            return resolve_lists(path, c, depth + 1)
+        return t
+    return tuple(resolve_lists(path, x, depth) if isinstance(x, tuple) else x for x in t)
